@@ -181,8 +181,10 @@ static void do_builder_faults(hctx* h, int ncols, int namelen, uint64_t seed) {
 static void gen_tree(hctx* h, el_t* e, int* n, int cap, int depth, int is_root) {
     int me = (*n)++;
     /* names: a small pool with repeats, including names that are proper prefixes of other names */
-    static const char* const prefix_pool[] = { "p", "pr", "price", "price_usd", "id", "idx", "i", "col_1", "col_10" };
-    if (h_chance(h, 1, 3)) snprintf(e[me].name, sizeof e[me].name, "%s", prefix_pool[h_below(h, 9)]);
+    /* ... and names that are not ASCII (Parquet names are UTF-8 strings: bytes >= 0x80 are ordinary name bytes) */
+    static const char* const prefix_pool[] = { "p", "pr", "price", "price_usd", "id", "idx", "i", "col_1", "col_10",
+                                               "gr\xc3\xb6\xc3\x9f" "e", "\xe5\x90\x8d\xe5\x89\x8d", "temp\xc3\xa9rature" };
+    if (h_chance(h, 1, 3)) snprintf(e[me].name, sizeof e[me].name, "%s", prefix_pool[h_below(h, 12)]);
     else snprintf(e[me].name, sizeof e[me].name, "%c%d", 'a' + (int)h_below(h, 4), (int)h_below(h, 5));
     e[me].rep = is_root ? (int)h_below(h, 4) - 1 : (int)h_below(h, 3);   /* the root may state any repetition (older writers do): it must not count */
     if (!is_root && h_chance(h, 1, 12)) e[me].rep = -1;
